@@ -1,3 +1,95 @@
 import Nv.OracleIO
-/-! oracle_c05 — stub (model not built yet): answers `bad-op` to every line. -/
-def main : IO Unit := Nv.oracleMain (fun (_ : Unit) _ => ((), "bad-op")) ()
+import Nv.Model.C05
+import Nv.Gen.C05
+/-!
+oracle_c05 — line protocol (keys `k<n>`, values are naturals, clock in unix milliseconds):
+  `new <mem|rds|both> <size> <dttl> <clockMs>`            → `ok`        (first line of every script)
+  `set <k> <v> <ttl|-> <mustNotExist:0|1> <keepTTL:0|1>`  → `ok` | `exists` | `err`
+  `get <k> <remove:0|1> <updateTTL|->`                    → `val:<v>` | `notfound`
+  `del <k>` | `clear`                                     → `ok`
+  `tick <ms>`                                             → `ok`
+  `race <k> <n>`   n concurrent remove-after-get readers of one key → `wins:<0|1>` (every schedule is a sequence
+                   of critical sections, so at most the first reader in lock order succeeds)
+In mode `both` a result is `<mem> <rds>`. The configuration is the regenerated `Nv.Gen.C05.cfg`.
+-/
+open Nv Nv.C05
+
+inductive Mode | mem | rds | both
+deriving DecidableEq
+
+structure OSt where
+  mode : Mode
+  sys : Sys
+  started : Bool
+
+def parseKey (s : String) : Option Nat :=
+  if s.startsWith "k" then (s.drop 1).toString.toNat? else none
+
+def parseBool (s : String) : Option Bool :=
+  if s == "1" then some true else if s == "0" then some false else none
+
+def parseOptInt (s : String) : Option (Option Int) :=
+  if s == "-" then some none else s.toInt?.map some
+
+def showOut : Out → String
+  | .ok => "ok" | .value v => s!"val:{v}" | .notFound => "notfound" | .exists_ => "exists" | .err => "err"
+
+def render (m : Mode) (o : Out × Out) : String :=
+  match m with
+  | .mem => showOut o.1
+  | .rds => showOut o.2
+  | .both => showOut o.1 ++ " " ++ showOut o.2
+
+def parseOp (ws : List String) : Option Op :=
+  match ws with
+  | ["set", k, v, ttl, mne, keep] =>
+    match parseKey k, v.toNat?, parseOptInt ttl, parseBool mne, parseBool keep with
+    | some k, some v, some ttl, some mne, some keep => some (.set k v ⟨ttl, mne, keep⟩)
+    | _, _, _, _, _ => none
+  | ["get", k, rm, upd] =>
+    match parseKey k, parseBool rm, parseOptInt upd with
+    | some k, some rm, some upd => some (.get k ⟨rm, upd⟩)
+    | _, _, _ => none
+  | ["del", k] => (parseKey k).map .remove
+  | ["clear"] => some .clear
+  | ["tick", n] => n.toNat?.map .tick
+  | _ => none
+
+def isValue : Out → Bool
+  | .value _ => true
+  | _ => false
+
+def step (s : OSt) (line : String) : OSt × String :=
+  match words line with
+  | ["new", m, size, dttl, clock] =>
+    let mode : Option Mode := if m == "mem" then some .mem else if m == "rds" then some .rds
+      else if m == "both" then some .both else none
+    match mode, size.toNat?, dttl.toInt?, clock.toNat? with
+    | some mode, some size, some dttl, some clock => (⟨mode, Sys.new clock size dttl, true⟩, "ok")
+    | _, _, _, _ => ({ s with started := false }, "bad-op")
+  | "new" :: _ => ({ s with started := false }, "bad-op")
+  | ["race", k, n] =>
+    if !s.started then (s, "bad-op") else
+    match parseKey k, n.toNat? with
+    | some k, some n =>
+      if n == 0 then (s, "bad-op") else
+      -- n sequential remove-after-get reads (any interleaving of the callers is such a sequence)
+      let ops := List.replicate n (Op.get k ⟨true, none⟩)
+      let r := runOps (Sys.step Nv.Gen.C05.cfg) s.sys ops
+      let wm := (r.2.filter (fun o => isValue o.1)).length
+      let wr := (r.2.filter (fun o => isValue o.2)).length
+      let out := match s.mode with
+        | .mem => s!"wins:{wm}"
+        | .rds => s!"wins:{wr}"
+        | .both => s!"wins:{wm} wins:{wr}"
+      ({ s with sys := r.1 }, out)
+    | _, _ => (s, "bad-op")
+  | ws =>
+    if !s.started then (s, "bad-op") else
+    match parseOp ws with
+    | some op =>
+      let r := Sys.step Nv.Gen.C05.cfg s.sys op
+      ({ s with sys := r.1 }, render s.mode r.2)
+    | none => (s, "bad-op")
+
+def main : IO Unit := oracleMain step ⟨.mem, Sys.new 0 0 0, false⟩
